@@ -6,14 +6,27 @@
 // need percent-encoding. (2) the correspondence stream of the package-index model: the real
 // packageindex on the harvested (type, name) lists and on generated ones.
 //
-// lines:  harvest <hex extractor name> <hex fixture path>   ->  pk=<packages> purls=<with purl> issues=<codes|->
+// (3) `layout`: the OS extractors' fixtures placed at their PRODUCTION paths in a scratch system tree (dpkg status at
+// var/lib/dpkg/status, status.d/ and usr/lib/opkg/status — where ToPURL switches to type opkg —, apk, rpm, cos, snap,
+// pacman, portage, flatpak, kernel modules, vmlinuz, nix store, macapps, homebrew) under several etc/os-release
+// variants (distro-driven namespaces and qualifiers, one needing percent-encoding), extracted by the real
+// filesystem.Run with every built-in extractor, and converted like the harvest. (4) `accept`: the real
+// purl.FromString on a well-formed purl of every type the translator found in a ToPURL implementation (op `accept e`,
+// the property) and of every purl.Type* constant (op `accept c`, informational) — independent of how validType is written.
 //
-//	index <pkgs>       pkgs := '-' | pkg (',' pkg)*   pkg := 'x' | <hextype> ':' <hexname>
-//	                                                 ->  obs=<A=ids;T<type>=ids;S<type>:<name>=ids>
+// lines:  harvest <hex extractor name> <hex fixture path>   ->  pk=<packages> purls=<with purl> issues=<codes|-> bad=<hex details|->
+//
+//	        layout <hex os-release variant>                   ->  pk= purls= byex=<extractor:count,…> types=<purl types> issues= bad=
+//	        accept <e|c> <hextype> <hex origin>               ->  acc=<0|1 "pkg:<type>/ns/name@1.0" parses> accs=<0|1 String() of a built PackageURL parses> idem=<0|1> why=<-|type|parse>
+//
+//		index <pkgs>       pkgs := '-' | pkg (',' pkg)*   pkg := 'x' | <hextype> ':' <hexname>
+//		                                                 ->  obs=<A=ids;T<type>=ids;S<type>:<name>=ids>
 package main
 
 import (
 	"context"
+	"crypto/sha1"
+	"flag"
 	"fmt"
 	"io"
 	"io/fs"
@@ -37,6 +50,7 @@ import (
 	"github.com/google/osv-scalibr/packageindex"
 	"github.com/google/osv-scalibr/plugin"
 	"github.com/google/osv-scalibr/purl"
+	"github.com/google/osv-scalibr/stats"
 
 	"verif/harness/hx"
 )
@@ -199,7 +213,10 @@ func eqStrs(a, b []string) bool {
 }
 
 // convert pushes one batch of packages (all from extractor e) through every conversion.
-func convert(e filesystem.Extractor, pkgs []*extractor.Package, tag string, is issues) (purls int) {
+func convert(e filesystem.Extractor, pkgs []*extractor.Package, tag string, is issues, det func(pk *extractor.Package, code, purlStr string)) (purls int) {
+	if det == nil {
+		det = func(*extractor.Package, string, string) {}
+	}
 	type pu struct {
 		u *purl.PackageURL
 		s string
@@ -210,13 +227,16 @@ func convert(e filesystem.Extractor, pkgs []*extractor.Package, tag string, is i
 			defer func() {
 				if r := recover(); r != nil {
 					is.add("%stopurl-panic", tag)
+					det(pk, tag+"topurl-panic", "")
 				}
 			}()
 			if pk.Name == "" && tag == "" {
 				is.add("empty-name")
+				det(pk, "empty-name", "")
 			}
 			if len(pk.Locations) == 0 && tag == "" {
 				is.add("no-location")
+				det(pk, "no-location", "")
 			}
 			_ = e.Ecosystem(pk)
 			u := e.ToPURL(pk)
@@ -230,8 +250,10 @@ func convert(e filesystem.Extractor, pkgs []*extractor.Package, tag string, is i
 			if err != nil {
 				if strings.Contains(err.Error(), "invalid PURL type") {
 					is.add("%spurl-type-rejected", tag)
+					det(pk, tag+"purl-type-rejected", s)
 				} else {
 					is.add("%spurl-rejected", tag)
+					det(pk, tag+"purl-rejected", s)
 				}
 				return
 			}
@@ -239,6 +261,7 @@ func convert(e filesystem.Extractor, pkgs []*extractor.Package, tag string, is i
 			v2, err := purl.FromString(s2)
 			if err != nil || v2.String() != s2 {
 				is.add("%spurl-not-idempotent", tag)
+				det(pk, tag+"purl-not-idempotent", s)
 			}
 		}()
 	}
@@ -388,8 +411,19 @@ func convert(e filesystem.Extractor, pkgs []*extractor.Package, tag string, is i
 	return purls
 }
 
+// details collects up to three concrete (location | purl | issue) witnesses for the reply's bad= field.
+type details struct{ d []string }
+
+func (d *details) add(pk *extractor.Package, code, purlStr string) {
+	if len(d.d) < 3 {
+		d.d = append(d.d, hx.Hex(strings.Join(pk.Locations, "+")+" | "+pk.Name+"@"+pk.Version+" | "+purlStr+" | "+code))
+	}
+}
+func (d *details) str() string { return hx.Join(d.d, ",") }
+
 func runHarvest(f fixture, emitIndex func([]purlMeta)) string {
 	is := issues{}
+	dt := &details{}
 	var pkgs []*extractor.Package
 	func() {
 		defer func() {
@@ -415,14 +449,14 @@ func runHarvest(f fixture, emitIndex func([]purlMeta)) string {
 	for i, pk := range pkgs {
 		if pk == nil {
 			is.add("nil-package")
-			return fmt.Sprintf("pk=%d purls=0 issues=%s", len(pkgs), issuesStr(is))
+			return fmt.Sprintf("pk=%d purls=0 issues=%s bad=-", len(pkgs), issuesStr(is))
 		}
 		pk.Extractor = f.ex // what the walk does
 		if i%2 == 0 {       // as ScanContainer would: layer details must survive the conversions
 			pk.LayerDetails = &extractor.LayerDetails{Index: 3 + i, DiffID: "sha256:abc", Command: "RUN x \"y\"", InBaseImage: i%4 == 0}
 		}
 	}
-	purls := convert(f.ex, pkgs, "", is)
+	purls := convert(f.ex, pkgs, "", is, dt.add)
 	// the same packages with names / versions that need percent-encoding
 	var mut []*extractor.Package
 	for i, pk := range pkgs {
@@ -431,7 +465,7 @@ func runHarvest(f fixture, emitIndex func([]purlMeta)) string {
 		c.Version = pk.Version + []string{" 1 2#3?4", "+build~1:2", "%41/β"}[i%3]
 		mut = append(mut, &c)
 	}
-	convert(f.ex, mut, "mut-", is)
+	convert(f.ex, mut, "mut-", is, dt.add)
 	if emitIndex != nil && len(pkgs) > 0 {
 		var ms []purlMeta
 		for i, pk := range pkgs {
@@ -460,7 +494,229 @@ func runHarvest(f fixture, emitIndex func([]purlMeta)) string {
 		})
 		emitIndex(ms)
 	}
-	return fmt.Sprintf("pk=%d purls=%d issues=%s", len(pkgs), purls, issuesStr(is))
+	return fmt.Sprintf("pk=%d purls=%d issues=%s bad=%s", len(pkgs), purls, issuesStr(is), dt.str())
+}
+
+// ---------------------------------------------------------------- production layout
+
+// placements: fixture (relative to the extractor's testdata) -> the path it has on a real system.
+var placements = []struct{ ex, fixture, prod string }{
+	{"os/dpkg", "dpkg/valid", "var/lib/dpkg/status"},
+	{"os/dpkg", "dpkg/status.d/foo", "var/lib/dpkg/status.d/foo"},
+	{"os/dpkg", "opkg/valid", "usr/lib/opkg/status"}, // ToPURL switches to purl type opkg for this location only
+	{"os/apk", "installed", "lib/apk/db/installed"},
+	{"os/rpm", "Packages_epoch", "var/lib/rpm/Packages"}, // the one rpm fixture this build can read (no sqlite / ndb packages in it)
+	{"os/cos", "multiple.json", "etc/cos-package-info.json"},
+	{"os/snap", "multi-arch.yaml", "snap/core/1234/meta/snap.yaml"},
+	{"os/pacman", "valid", "var/lib/pacman/local/zstd-1.5.6-1/desc"},
+	{"os/portage", "valid", "var/db/pkg/app-misc/hello-2.12/PF"},
+	{"os/flatpak", "valid.xml", "var/lib/flatpak/app/org.x.App/current/active/export/share/metainfo/org.x.App.metainfo.xml"},
+	{"os/kernel/module", "valid", "lib/modules/6.1.0/kernel/drivers/x.ko"},
+	{"os/kernel/vmlinuz", "valid", "boot/vmlinuz-6.1.0"},
+	{"os/macapps", "ValidXML.plist", "Applications/Valid.app/Contents/Info.plist"},
+	{"os/homebrew", "Cellar/rclone/1.67.0/INSTALL_RECEIPT.json", "usr/local/Cellar/rclone/1.67.0/INSTALL_RECEIPT.json"},
+	{"os/nix", "", "nix/store/1ddf3x30m0z6kknmrmapsc7liz8npi1w-perl-5.38.2/bin/ptar"}, // synthetic: the store path is the data
+}
+
+// os-release variants: distro-driven namespaces / qualifiers of the OS extractors' purls
+var osReleases = []struct{ name, content string }{
+	{"none", ""},
+	{"debian", "ID=debian\nVERSION_ID=\"12\"\nVERSION_CODENAME=bookworm\n"},
+	{"ubuntu", "ID=ubuntu\nVERSION_ID=\"22.04\"\nVERSION_CODENAME=jammy\n"},
+	{"openwrt", "ID=\"openwrt\"\nVERSION_ID=\"23.05.2\"\nBUILD_ID=\"r23630-842932a63d\"\n"},
+	{"alpine", "ID=alpine\nVERSION_ID=3.19.1\n"},
+	{"fedora", "ID=fedora\nVERSION_ID=39\nBUILD_ID=f39\n"},
+	{"arch", "ID=arch\nBUILD_ID=rolling\n"},
+	{"cos", "ID=cos\nVERSION=113\nVERSION_ID=113\nBUILD_ID=18244.85.49\n"},
+	{"weird", "ID=\"we ird/o:s\"\nVERSION_ID=\"1 2#3?4\"\nVERSION_CODENAME=\"co de&name%\"\nBUILD_ID=\"b+1\"\n"},
+}
+
+func runLayout(scratch, variant string) string {
+	return hx.Guard(func() string {
+		content, ok := "", false
+		for _, v := range osReleases {
+			if v.name == variant {
+				content, ok = v.content, true
+			}
+		}
+		if !ok {
+			return "pk=0 purls=0 byex=- types=- issues=unknown-variant bad=-"
+		}
+		tree, err := os.MkdirTemp(scratch, "layout")
+		if err != nil {
+			panic(err)
+		}
+		defer os.RemoveAll(tree)
+		placed := map[string]bool{}
+		for _, pl := range placements {
+			to := filepath.Join(tree, pl.prod)
+			if err := os.MkdirAll(filepath.Dir(to), 0o755); err != nil {
+				continue
+			}
+			if pl.fixture == "" {
+				_ = os.WriteFile(to, []byte("x"), 0o644)
+				placed[pl.ex] = true
+				continue
+			}
+			data, err := os.ReadFile(filepath.Join(scratch, strings.ReplaceAll(pl.ex, "/", "_"), pl.fixture))
+			if err != nil {
+				continue
+			}
+			_ = os.WriteFile(to, data, 0o644)
+			placed[pl.ex] = true
+		}
+		if content != "" {
+			_ = os.MkdirAll(filepath.Join(tree, "etc"), 0o755)
+			_ = os.WriteFile(filepath.Join(tree, "etc/os-release"), []byte(content), 0o644)
+		}
+		// the real walk with fresh instances of every built-in filesystem extractor
+		var exs []filesystem.Extractor
+		var names []string
+		for n := range el.All {
+			names = append(names, n)
+		}
+		sort.Strings(names)
+		for _, n := range names {
+			for _, init := range el.All[n] {
+				exs = append(exs, init())
+			}
+		}
+		ctx, cancel := context.WithTimeout(context.Background(), 60*time.Second)
+		defer cancel()
+		inv, _, err := filesystem.Run(ctx, &filesystem.Config{Extractors: exs, ScanRoots: []*scalibrfs.ScanRoot{{FS: scalibrfs.DirFS(tree), Path: tree}}, Stats: stats.NoopCollector{}})
+		is := issues{}
+		if err != nil {
+			is.add("walk-error")
+		}
+		dt := &details{}
+		by := map[string][]*extractor.Package{}
+		byEx := map[string]filesystem.Extractor{}
+		for _, pk := range inv.Packages {
+			fe, ok := pk.Extractor.(filesystem.Extractor)
+			if !ok {
+				is.add("foreign-extractor")
+				continue
+			}
+			by[fe.Name()] = append(by[fe.Name()], pk)
+			byEx[fe.Name()] = fe
+		}
+		var exNames []string
+		for n := range by {
+			exNames = append(exNames, n)
+		}
+		sort.Strings(exNames)
+		purls := 0
+		types := map[string]bool{}
+		var byS, allPurls []string
+		for _, n := range exNames {
+			pkgs := by[n]
+			purls += convert(byEx[n], pkgs, "", is, dt.add)
+			var mut []*extractor.Package
+			for i, pk := range pkgs {
+				c := *pk
+				c.Name = pk.Name + []string{" we ird/na:me<>&\"'%", "@scope/ü+x", "a?b#c=d"}[i%3]
+				c.Version = pk.Version + []string{" 1 2#3?4", "+build~1:2", "%41/β"}[i%3]
+				mut = append(mut, &c)
+			}
+			convert(byEx[n], mut, "mut-", is, dt.add)
+			for _, pk := range pkgs {
+				func() {
+					defer func() { _ = recover() }()
+					if u := byEx[n].ToPURL(pk); u != nil {
+						types[u.Type] = true
+						allPurls = append(allPurls, u.String())
+					}
+				}()
+			}
+			byS = append(byS, n+":"+strconv.Itoa(len(pkgs)))
+		}
+		// a placed extractor that yields nothing means the layout table drifted from the extractor's FileRequired
+		var pn []string
+		for n := range placed {
+			pn = append(pn, n)
+		}
+		sort.Strings(pn)
+		for _, n := range pn {
+			if len(by[n]) == 0 && !layoutMayBeEmpty[n] {
+				is.add("layout-empty:%s", n)
+			}
+		}
+		var ts []string
+		for t := range types {
+			ts = append(ts, t)
+		}
+		sort.Strings(ts)
+		// fingerprint + one example, so that the evidence shows the os-release variant really reaches the purls
+		sort.Strings(allPurls)
+		sum := sha1.Sum([]byte(strings.Join(allPurls, "\n")))
+		sample := ""
+		for _, p := range allPurls {
+			if strings.HasPrefix(p, "pkg:opkg/") {
+				sample = p
+				break
+			}
+		}
+		return fmt.Sprintf("pk=%d purls=%d byex=%s types=%s issues=%s bad=%s purlsum=%x sample=%s", len(inv.Packages), purls, hx.Join(byS, ","), hx.Join(ts, ","), issuesStr(is), dt.str(), sum[:4], hx.Hex(sample))
+	})
+}
+
+// layoutMayBeEmpty: extractors whose placement is best-effort (filled in after looking at what they need)
+var layoutMayBeEmpty = map[string]bool{"os/kernel/vmlinuz": true} // its fixtures yield no package in a plain extraction either
+
+// ---------------------------------------------------------------- accepted types, at run time
+
+func runAccept(typ string) string {
+	return hx.Guard(func() string {
+		// several well-formed shapes: packageurl-go has type-specific rules (conan wants a channel qualifier with a
+		// namespace, …) that are not the subject here; the type is accepted when some shape goes through, and "type"
+		// is reported when the library's own type test (purl.validType) is what refuses it
+		typeRefused, parsed := false, false
+		try := func(s string) (purl.PackageURL, bool) {
+			v, err := purl.FromString(s)
+			if err == nil {
+				return v, true
+			}
+			if strings.Contains(err.Error(), "invalid PURL type") {
+				typeRefused = true
+			}
+			return v, false
+		}
+		var good []purl.PackageURL
+		acc := false
+		for _, s := range []string{"pkg:" + typ + "/ns/name@1.0", "pkg:" + typ + "/name@1.0", "pkg:" + typ + "/name"} {
+			if v, ok := try(s); ok {
+				acc, parsed = true, true
+				good = append(good, v)
+			}
+		}
+		accs := false
+		for _, u := range []purl.PackageURL{
+			{Type: typ, Namespace: "ns", Name: "name", Version: "1.0", Qualifiers: purl.QualifiersFromMap(map[string]string{"arch": "x86 64", "distro": "d-1"})},
+			{Type: typ, Name: "name", Version: "1.0", Qualifiers: purl.QualifiersFromMap(map[string]string{"arch": "x86 64"})},
+			{Type: typ, Name: "name", Version: "1.0"},
+		} {
+			if v, ok := try(u.String()); ok {
+				accs, parsed = true, true
+				good = append(good, v)
+			}
+		}
+		idem := len(good) > 0
+		for _, v := range good {
+			p := v.String()
+			w, err := purl.FromString(p)
+			if err != nil || w.String() != p {
+				idem = false
+			}
+		}
+		why := "-"
+		if !acc || !accs {
+			why = "parse"
+			if typeRefused && !parsed {
+				why = "type"
+			}
+		}
+		return fmt.Sprintf("acc=%s accs=%s idem=%s why=%s", hx.B(acc), hx.B(accs), hx.B(idem), why)
+	})
 }
 
 func issuesStr(is issues) string {
@@ -531,6 +787,7 @@ func randIndex(r *rand.Rand) []purlMeta {
 }
 
 func main() {
+	typesFile := flag.String("types", "", "file with lines `e <type> <origin>` / `c <type> <const name>`: purl types to push through purl.FromString")
 	o := hx.Parse()
 	out := hx.NewOut()
 	defer out.Flush()
@@ -558,11 +815,34 @@ func main() {
 					continue
 				}
 				out.Emit(l, runHarvest(f, nil))
+			case "layout":
+				out.Emit(l, runLayout(scratch, hx.UnHex(t[1])))
+			case "accept":
+				out.Emit(l, runAccept(hx.UnHex(t[2])))
 			default:
 				out.Emit(l, "bad-op")
 			}
 		}
 		return
+	}
+	// the accepted-type probe first (the most direct witness), then the production layout, then every fixture
+	if *typesFile != "" {
+		data, err := os.ReadFile(*typesFile)
+		if err != nil {
+			panic(err)
+		}
+		for _, ln := range strings.Split(string(data), "\n") {
+			t := strings.SplitN(ln, " ", 3)
+			if len(t) != 3 || (t[0] != "e" && t[0] != "c") {
+				continue
+			}
+			l := "accept " + t[0] + " " + hx.Hex(t[1]) + " " + hx.Hex(t[2])
+			out.Emit(l, runAccept(t[1]))
+		}
+	}
+	for _, v := range osReleases {
+		l := "layout " + hx.Hex(v.name)
+		out.Emit(l, runLayout(scratch, v.name))
 	}
 	// every fixture of every built-in filesystem extractor, in both tiers
 	for _, f := range fx {
